@@ -169,7 +169,12 @@ func (fm *Server) Init(ctx context.Context, req *pb.InitRequest) (*pb.Response, 
 	fm.lock.Lock()
 	fm.status = FuseManagerWaitInit
 	defer func() {
-		fm.status = FuseManagerReady
+		// Requests are served only when a filesystem exists: after a failed first
+		// initialisation there is none, and an earlier one keeps serving its mounts
+		// when a re-initialisation fails.
+		if fm.curFs != nil {
+			fm.status = FuseManagerReady
+		}
 		fm.lock.Unlock()
 	}()
 
